@@ -157,7 +157,7 @@ def run(tier, seed):
         rng = core.rng_for(seed, "c07", i)
         rng.shuffle(expanded)
         # partition the first-level prefixes over the workers
-        nparts = 4 if tier == "quick" else 16
+        nparts = 16
         cap = 400 if tier == "quick" else 6000
         for k in range(nparts):
             part = expanded[k::nparts]
